@@ -638,11 +638,10 @@ impl<'a> TokenLexer<'a> {
 
         match id {
             "else" => {
-                if self
-                    .source
-                    .get(self.current_byte..self.current_byte + char_bytes + 3)
-                    == Some("else if")
-                {
+                let is_else_if = self.source[self.current_byte + char_bytes..]
+                    .strip_prefix(" if")
+                    .is_some_and(|rest| !rest.chars().next().is_some_and(is_id_continue));
+                if is_else_if {
                     self.advance_line(7);
                     return ElseIf;
                 } else {
